@@ -7,7 +7,7 @@ for p in sorted(glob.glob(os.path.join(os.path.dirname(os.path.abspath(__file__)
     d = json.load(open(p))
     if 'no failing input' in d.get('note', ''):
         continue
-    w = {k: d.get(k) for k in ('input', 'opts', 'fopts', 'today', 'variant', 'altered', 'alphabet', 'registry', 'deletechars', 'getter', 'query', 'separator', 'parentheses', 'fmt', 'type', 'history', 'line') if d.get(k) is not None}
+    w = {k: d.get(k) for k in ('input', 'opts', 'fopts', 'today', 'variant', 'altered', 'alphabet', 'registry', 'deletechars', 'getter', 'query', 'separator', 'parentheses', 'fmt', 'type', 'history', 'line', 'encoded', 'conv') if d.get(k) is not None}
     out.append(dict(property=prop, module=d['module'], kind=d.get('kind') or d['what'].split(':')[0], key=d['key'], status='known',
                     what=d['what'], witness=w, observed=d.get('real')))
 json.dump(out, sys.stdout, indent=1, ensure_ascii=True)
